@@ -18,9 +18,22 @@ use std::collections::VecDeque;
 use std::fmt;
 use std::io;
 use std::mem::drop;
+#[cfg(not(quandary_verif))]
 use std::sync::{Arc, Condvar, Mutex, MutexGuard};
+#[cfg(quandary_verif)]
+use std::sync::Arc;
+#[cfg(quandary_verif)]
+use crate::verif::sync::{Condvar, Mutex, MutexGuard};
+#[cfg(not(quandary_verif))]
 use std::thread::{self, ThreadId};
+#[cfg(quandary_verif)]
+use crate::verif::thread::{self, ThreadId};
+#[cfg(not(quandary_verif))]
 use std::time::{Duration, Instant};
+#[cfg(quandary_verif)]
+use std::time::Duration;
+#[cfg(quandary_verif)]
+use crate::verif::time::Instant;
 
 use log::{error, info};
 use slab::Slab;
